@@ -2,6 +2,9 @@ package main
 
 func (ex *Exec) blobLen(b *Blob) *Term {
 	f := ex.tf
+	if b.Str != nil {
+		return ex.strLen(*b.Str)
+	}
 	if b.Empty.IsConst() {
 		if b.Empty.B {
 			return f.I64(0)
@@ -16,6 +19,12 @@ func (ex *Exec) blobLen(b *Blob) *Term {
 func (ex *Exec) blobEq(a, b *Blob) *Term {
 	if a == b {
 		return ex.tf.True
+	}
+	if a.Str != nil || b.Str != nil {
+		if a.Str != nil && b.Str != nil {
+			return ex.strEq(*a.Str, *b.Str)
+		}
+		return ex.tf.False
 	}
 	t, ok := ex.tryDeepEq(a.V, b.V)
 	if !ok {
